@@ -240,6 +240,17 @@ func init() {
 			Bounds: "concrete name sets (representatives); per-field value binding is checked only through acceptance of the required keys",
 			Panic:  "inconclusive"},
 	}})
+	reg(&Property{ID: "C13", Units: []Unit{
+		{Name: "legacy-vs-current-keywords", Harness: "pkg/schemas:HarnessC13Keywords", Layer: "L1",
+			Desc:   "a symbolic schema DOCUMENT (symbolic $id, title, type, minimum; one definition, one dependent schema and one property, each a small type with symbolic content; every presence flag symbolic) and its re-spelling with any subset of id/$id, definitions/$defs, dependencies/dependentSchemas (applied at every object level through a renamed view of the same document) are pushed through the REAL Schema.UnmarshalJSON / Type.UnmarshalJSON / TypeList.UnmarshalJSON with the encoding/json decode stub: same parse outcome, and parsed values equal on every pkg/schemas field that code outside the parser touches (set computed from SSA on every run)",
+			Bounds: "schema documents with the listed keys only (all others absent), E=1 entry per map, nesting depth 2; root has a type; equal parsed values imply equal output because generation is a deterministic function of the parsed value and the options (C12); the YAML half of C13 (goccy/go-yaml byte-level parser) and \"#/definitions/\" vs \"#/$defs/\" inside $ref strings (covered by C10's shared-definition unit) are not part of this unit",
+			Quick:  map[string]int{"E": 1, "N": 1, "OPTIONAL": 0}, Thor: map[string]int{"E": 1, "N": 1, "OPTIONAL": 1},
+			Panic:  "inconclusive"},
+		{Name: "type-as-string-or-list/true-or-empty", Harness: "pkg/schemas:HarnessC13TypeSpellings", Layer: "L1",
+			Desc:   "TypeList.UnmarshalJSON on a symbolic string s and on the document [s] (same atom) parse equal; Type.UnmarshalJSON on true and on {} parse equal",
+			Bounds: "non-empty type name",
+			Panic:  "inconclusive"},
+	}, Assumptions: []string{"encoding/json decode stub incl. embedded-struct promotion and shadowing (contract in DESIGN §5.3/A.5)", "fields of pkg/schemas types that are only compared wholesale (cmp.Equal) are treated as not read by the generator"}})
 	reg(&Property{ID: "C12", Units: []Unit{
 		{Name: "map-order-schedules", Harness: "pkg/generator:HarnessC12", Layer: "L3", MapOrd: 5, SameEmits: true,
 			Desc:   "every `range` over a Go map executed in repository code (sites discovered dynamically: sortedKeys, sortDefinitionsByName, Sources, beginOutput, hasDecl...) is a schedule choice; all orders of maps with <= 3 entries are explored and every schedule must emit byte-identical files under identical names (hole terms compared syntactically)",
